@@ -39,6 +39,12 @@ BAD_OTHER = [None, None, None, None, {"initiate_login_uri": "http://rp.example.c
 def cases(rng, tier):
     n = {"quick": 40, "thorough": 500, "search": 300}[tier]
     out = []
+    # the admission table, exhaustively: every URI shape x application type x response-type list (one registration each)
+    RTS = [["code"], ["code", "id_token"], ["id_token"], None, ["code id_token"], ["code", "token"]]
+    for app in ("web", "native", None):
+        for rt in RTS:
+            out.append({"t": "hist", "ops": [["register", [u], app, rt, None] for u in URIS] +
+                        [["register", ["https://rp.example.com/cb", u], app, rt, None] for u in URIS[1:6]]})
     for _ in range(n):
         ops = []
         nreg = 0
@@ -52,6 +58,14 @@ def cases(rng, tier):
                 ops.append(["read", rng.randrange(nreg), rng.randrange(nreg)])
         out.append({"t": "hist", "ops": ops})
     return out
+
+
+def eff_rt(rt):
+    """response_types as verify_redirect_uris sees them: unsupported values were dropped by the capability filter"""
+    if rt is None:
+        return None
+    sup = server().context.provider_info.get("response_types_supported", [])
+    return [x for x in rt if x in sup]
 
 
 def shape(uri):
@@ -126,7 +140,7 @@ def model_lines(c, obs):
         if op[0] == "register":
             other_ok = op[4] is None
             shapes = ";".join(f"{s[0]},{'1' if s[1] else '0'},{'1' if s[2] else '0'}" for s in map(shape, op[1]))
-            lines.append("\t".join(["reg", "register", "1" if op[2] == "native" else "0", "1" if op[3] in (None, ["code"]) else "0", "1" if other_ok else "0", shapes]))
+            lines.append("\t".join(["reg", "register", "1" if op[2] == "native" else "0", "1" if eff_rt(op[3]) in (None, ["code"]) else "0", "1" if other_ok else "0", shapes]))
         elif st["r"] != "skip":
             # model ids follow the counter: the k-th successful registration got id 3k
             succ = [i for i, s2 in enumerate(x for x in obs["steps"] if x["r"] in ("registered", "error")) if s2["r"] == "registered"]
@@ -177,7 +191,7 @@ def oracle(c, obs):
         if op[0] == "register":
             if st["r"] == "registered":
                 for u in op[1]:
-                    if not py_rule(u, op[2], op[3]):
+                    if not py_rule(u, op[2], eff_rt(op[3])):
                         v.append({"cls": "inadmissible-uri-stored", "uri": u, "app": op[2], "rt": op[3]})
                 if op[4] is not None:
                     v.append({"cls": "inconsistent-metadata-stored", "what": list(op[4])[0]})
